@@ -6,11 +6,11 @@ from ..runner import Violation, Inconclusive, Rejected, guard
 from ..oracles import conv
 
 
-def guard_declared(fn, *args, declared=()):
+def guard_declared(fn, *args, declared=(), **kwargs):
     """``guard`` plus: an exception whose text contains one of ``declared`` is the code's own statement that the
     form is unsupported (declared rejection, DESIGN section 2 "Exceptions")."""
     try:
-        return guard(fn, *args)
+        return guard(fn, *args, **kwargs)
     except Violation as v:
         s = str(v)
         for pat in declared:
@@ -161,3 +161,16 @@ def assert_unchanged(obj, a, what):
         raise Violation('%s: the call modified its operand (first difference at %s: %r was %r), so the equation no longer '
                         'holds for the operand the caller holds' % (what, where, data[where].item() if len(bad) else None,
                                                                     np.asarray(a)[where].item() if len(bad) else None))
+
+
+def out_buffer(shape, dtype, mode):
+    """result buffer handed over as ``out=``: zeros, or deterministic non-zero garbage (NumPy's out= convention and the
+    code's own kernels -- ``_dot``/``_outer`` clear ``out`` first, internal callers pass ``xbar.copy()`` -- do not require a
+    cleared buffer)"""
+    n = int(np.prod(shape, dtype=int))
+    if mode == 'zeros':
+        return np.zeros(shape, dtype=dtype)
+    g = (1.25 + 0.5 * (np.arange(n) % 7)).reshape(shape)
+    if np.dtype(dtype).kind == 'c':
+        return g * (1.0 - 0.5j)
+    return g.astype(dtype)
